@@ -57,12 +57,46 @@ class FakeGeom:
         return ('selection', [int(x) for x in sel])
 
 
+class FakeLabels:
+    """index labels of the parent (with a duplicate, as after a concat): positional reads only"""
+    _pysym_model = True
+
+    def __init__(self, labels):
+        self.labels = labels
+
+    def __getitem__(self, sel):
+        sel = np.asarray(sel)
+        if sel.dtype == bool:
+            sel = np.nonzero(sel)[0]
+        return [self.labels[int(i)] for i in sel]
+
+    def __len__(self):
+        return len(self.labels)
+
+
+class FakeLoc:
+    """label based selection with pandas semantics: every row carrying a requested label, per requested label"""
+    _pysym_model = True
+
+    def __init__(self, parent):
+        self.parent = parent
+
+    def __getitem__(self, labels):
+        labs = self.parent.index.labels
+        pos = [i for lab in list(labels) for i in range(len(labs)) if labs[i] == lab]
+        self.parent.geom.log.append(('selected-parent', pos))
+        return ('parent-selection-by-label', pos)
+
+
 class FakeParent:
     _pysym_model = True
 
     def __init__(self, geom):
         self.geom = geom
         self.iloc = self
+        n = geom.n
+        self.index = FakeLabels(['dup' if i in (0, n - 1) else f'r{i}' for i in range(n)])     # first and last row share a label
+        self.loc = FakeLoc(self)
 
     def __len__(self):
         return self.geom.n
@@ -328,7 +362,10 @@ def replay_getitem(n, page_size, with_index, parent, model, nan_rows=True, rect=
         arr.build_sindex(page_size=page_size)
     wit = {'rows': rows, 'key': (kx0, kx1, ky0, ky1), 'with_index': with_index, 'page_size': page_size, 'parent': parent}
     try:
-        df = sp.GeoDataFrame({'geometry': arr, 'id': list(range(n))}, index=pd.Index([f'r{i}' for i in range(n)]))
+        df = sp.GeoDataFrame({'geometry': arr, 'id': list(range(n))}, index=pd.Index(['dup' if i in (0, n - 1) else f'r{i}' for i in range(n)]))
+        if with_index:
+            df.build_sindex(page_size=page_size)      # the frame may hold a copy of the array: build the index on the frame's own column
+            assert df.geometry.array._sindex is not None
         if parent:
             got = [int(x) for x in df.cx[kx0:kx1, ky0:ky1]['id']]
         else:
